@@ -2,6 +2,8 @@
 SPECIFICATION (hashed by the audit): predicates the statements about the Processor (C07 / C10) are written in.
 -/
 import DafRel.Model.Processor
+import DafRel.Spec.Select
+import DafRel.Spec.SqlCompile
 
 namespace DafRel
 
@@ -35,15 +37,43 @@ def Rel.procFlag : Rel → Bool
   | .binary .. => false
   | _ => true
 
-/-- A tree over SEVERAL iteration engines: leaves, unary operations, chains, transfers between iteration engines
-(statically trivial ones included) and materializations of single-engine subtrees. -/
+/-- A SQL-engine tree of leaves (holding payloads), unary operations, joins and chains without a statically empty
+operand: the source of a Transfer out of a database. -/
+def Rel.SqlLeafTree : Rel → Prop
+  | .leaf _ e _ _ _ _ p _ => e.kind = .sql ∧ p = true
+  | .unary _ t _ => Rel.SqlLeafTree t
+  | .binary op l r _ => Rel.SqlLeafTree l ∧ Rel.SqlLeafTree r ∧
+      (match op with
+       | .chain => l.maxRows ≠ some 0 ∧ r.maxRows ≠ some 0
+       | _ => True)
+  | _ => False
+
+/-- A multi-engine tree whose operations run in iteration engines: leaves, unary operations, chains,
+materializations of single-engine subtrees, transfers between iteration engines (statically trivial ones included)
+and transfers OUT OF A SQL ENGINE whose source is a raw SQL tree over leaves. -/
 def Rel.MultiIter : Rel → Prop
-  | .leaf _ e _ _ _ _ _ _ => e.kind = .iter
-  | .unary _ t _ => Rel.MultiIter t
-  | .binary _ l r _ => Rel.MultiIter l ∧ Rel.MultiIter r
-  | .mat _ _ t => t.engine.kind = .iter ∧ Rel.PlainIter t.engine t
-  | .transfer _ d t => Rel.MultiIter t ∧ d.kind = .iter
+  | .leaf _ e _ _ _ _ p _ => e.kind = .iter ∧ p = true
+  | .unary op t _ => Rel.MultiIter t ∧ op.isIdentity = false ∧ op.arityOk = true
+  | .binary op l r _ => Rel.MultiIter l ∧ Rel.MultiIter r ∧ l.engine = r.engine ∧
+      (match op with
+       | .chain => True
+       | _ => False)
+  | .mat _ _ t => t.engine.kind = .iter ∧ Rel.PlainIter t.engine t ∧ t.IterOK
+  | .transfer _ d t => d.kind = .iter ∧
+      ((t.engine.kind = .iter ∧ Rel.MultiIter t) ∨ (t.engine.kind = .sql ∧ t.RawSql ∧ t.SqlLeafTree))
   | .select .. => False
+
+/-- What is assumed of the SQL sources of the tree, relative to the database state: the tables attached to their
+leaves hold the leaves' rows, and the conformed source passes the decidable check of the compile-correctness
+theorem (C02). -/
+def Rel.SqlSrcOK (σ : Leaves) (sq0 : SqlState) : Rel → Prop
+  | .unary _ t _ => Rel.SqlSrcOK σ sq0 t
+  | .binary _ l r _ => Rel.SqlSrcOK σ sq0 l ∧ Rel.SqlSrcOK σ sq0 r
+  | .transfer _ _ t =>
+    (t.engine.kind = .sql → t.Faithful sq0 sq0.tables σ ∧
+      ∀ st c, conform st defaultFuel t = .ok c → (c.get t).structReady sq0 = true) ∧
+    (t.engine.kind = .iter → Rel.SqlSrcOK σ sq0 t)
+  | _ => True
 
 /-- Every marker of the tree has an allocation id below `n` (ids the Processor hands out later are fresh). -/
 def Rel.markersBelow (n : Nat) : Rel → Prop
@@ -53,5 +83,16 @@ def Rel.markersBelow (n : Nat) : Rel → Prop
   | .mat oid _ t => oid < n ∧ Rel.markersBelow n t
   | .transfer oid _ t => oid < n ∧ Rel.markersBelow n t
   | .select oid _ _ _ _ _ _ _ t => oid < n ∧ Rel.markersBelow n t
+
+/-- The SQL-side payload store holds nothing under the allocation ids of the iteration-engine part of the tree
+(ids are unique per object: a SQL payload belongs to a SQL leaf or marker).  SQL subtrees below a Transfer are not
+inspected. -/
+def Rel.sqFree (sq : SqlState) : Rel → Prop
+  | .leaf oid _ _ _ _ _ _ _ => sq.payload oid = none
+  | .unary _ t _ => Rel.sqFree sq t
+  | .binary _ l r _ => Rel.sqFree sq l ∧ Rel.sqFree sq r
+  | .mat oid _ t => sq.payload oid = none ∧ Rel.sqFree sq t
+  | .transfer oid _ t => sq.payload oid = none ∧ (t.engine.kind = .iter → Rel.sqFree sq t)
+  | .select oid _ _ _ _ _ _ _ t => sq.payload oid = none ∧ Rel.sqFree sq t
 
 end DafRel
